@@ -114,7 +114,10 @@ func (e *Exec) step(fr *frame, instr ssa.Instruction, reach Term, st *State) Ter
 		// interface values are opaque; distinct from nil
 		t := c.fresh(sortIface, "iface")
 		c.assume(c.implies(reach, c.not(c.eq(t, Term{"nil_iface", sortIface}))), "")
-		st.env[x] = scalar(x.Type(), t)
+		iv := scalar(x.Type(), t)
+		bv := e.value(st, x.X)
+		iv.Boxed = &bv
+		st.env[x] = iv
 	case *ssa.ChangeInterface:
 		v := e.value(st, x.X)
 		v.Typ = x.Type()
@@ -143,8 +146,63 @@ func (e *Exec) step(fr *frame, instr ssa.Instruction, reach Term, st *State) Ter
 			st.cells[key] = c.store(cur, ref, c.zero(full))
 		}
 		st.env[x] = Val{Typ: x.Type(), L: []Term{ref, bvLitI(64, 0), ln, cp}}
-	case *ssa.TypeAssert, *ssa.MakeClosure, *ssa.MakeMap, *ssa.MapUpdate, *ssa.Lookup, *ssa.Range, *ssa.Next,
-		*ssa.Go, *ssa.Defer, *ssa.RunDefers, *ssa.Select, *ssa.Send, *ssa.MakeChan:
+	case *ssa.Range:
+		// iterator over a string or a map: opaque; Next yields arbitrary elements
+		rv := e.value(st, x.X)
+		it := scalar(x.Type(), c.fresh(sortOpaque, "iter"))
+		it.Boxed = &rv
+		st.env[x] = it
+	case *ssa.Next:
+		// (ok, key, value): an arbitrary number of iterations over arbitrary elements (sound
+		// over-approximation of any string / map content); string keys are valid indices
+		tup := x.Type().(*types.Tuple)
+		var tv Val
+		tv.Typ = tup
+		for i := 0; i < tup.Len(); i++ {
+			et := tup.At(i).Type()
+			if b, ok := et.(*types.Basic); ok && b.Kind() == types.Invalid {
+				et = types.Typ[types.Int] // unused component
+			}
+			tv.Tuple = append(tv.Tuple, c.freshVal(et, "next"))
+		}
+		if x.IsString {
+			if it := e.value(st, x.Iter); it.Boxed != nil && len(it.Boxed.L) == 1 && it.Boxed.T().Sort.K == SStr {
+				k := tv.Tuple[1].T()
+				c.assume(c.implies(c.and(reach, tv.Tuple[0].T()), c.and(c.app(sortBool, "bvsge", k, bvLitI(64, 0)), c.app(sortBool, "bvslt", k, c.app(bvSort(64), "strlen", it.Boxed.T())))), "range over string: index in range")
+			}
+		}
+		st.env[x] = tv
+	case *ssa.RunDefers:
+		// deferred mutex unlocks run now (latest first); other accepted defers have no effect on
+		// the modelled state
+		for i := len(fr.deferred) - 1; i >= 0; i-- {
+			d := fr.deferred[i]
+			cond, ok := st.cells[d.key]
+			if !ok {
+				continue
+			}
+			_, _ = e.libraryCall(d.fn, d.args, c.and(reach, cond), st, x.Pos())
+		}
+	case *ssa.Defer:
+		if fn := x.Call.StaticCallee(); fn != nil && !x.Call.IsInvoke() && (fn.String() == "(*sync.Mutex).Unlock" || fn.String() == "(*sync.RWMutex).Unlock") {
+			var args []Val
+			for _, a := range x.Call.Args {
+				args = append(args, e.value(st, a))
+			}
+			key := fmt.Sprintf("l:defer.%s.%d", sanitize(e.fnShort(x.Parent())), len(fr.deferred))
+			fr.deferred = append(fr.deferred, deferredCall{fn: fn, args: args, key: key})
+			prev, ok := st.cells[key]
+			if !ok {
+				prev = tFalse
+			}
+			st.cells[key] = c.ite(reach, tTrue, prev)
+		} else if fn := x.Call.StaticCallee(); fn != nil && !inRepo(fn) && !x.Call.IsInvoke() {
+			e.trusted["deferred library call "+fn.String()+" dropped (no effect on modelled state)"] = true
+		} else {
+			reach = e.exotic(fr, instr, reach, st)
+		}
+	case *ssa.TypeAssert, *ssa.MakeClosure, *ssa.MakeMap, *ssa.MapUpdate, *ssa.Lookup,
+		*ssa.Go, *ssa.Select, *ssa.Send, *ssa.MakeChan:
 		reach = e.exotic(fr, instr, reach, st)
 	default:
 		e.fail("unsupported instruction %T: %s", instr, instr)
@@ -155,7 +213,7 @@ func (e *Exec) step(fr *frame, instr ssa.Instruction, reach Term, st *State) Ter
 // exotic: instructions outside the modelled subset.  Results are havocked when the contract of
 // the unit allows abstraction (`abstract` clause); otherwise the unit fails.
 func (e *Exec) exotic(fr *frame, instr ssa.Instruction, reach Term, st *State) Term {
-	if fr.spec == nil || !fr.spec.Abstract {
+	if !e.abstractAll && (fr.spec == nil || !fr.spec.Abstract) {
 		if ct := e.prog.contracts[funcKey(fr.fi.Fn)]; ct == nil || !ct.Abstract {
 			e.fail("instruction outside the subset: %T %s (%s)", instr, instr, e.posStr(instr.Pos()))
 		}
@@ -414,6 +472,23 @@ func (e *Exec) binop(op token.Token, a, b Val, rt types.Type, reach Term, pos to
 				c.assume(c.implies(reach, g), "")
 			}
 			o := map[bool]map[token.Token]string{true: {token.QUO: "bvsdiv", token.REM: "bvsrem"}, false: {token.QUO: "bvudiv", token.REM: "bvurem"}}[signed][op]
+			if _, lit := litValue(y); e.divAbstract && !lit && op == token.QUO && w == 64 {
+				// division by a symbolic divisor as an uninterpreted function that satisfies
+				// 0 <= a/b <= a for a >= 0, b >= 1 (assumed fact about truncated division)
+				name := "sdiv64_uf"
+				ge, le := "bvsge", "bvsle"
+				if !signed {
+					name, ge, le = "udiv64_uf", "bvuge", "bvule"
+				}
+				c.declareFun(name, []string{bvSort(64).String(), bvSort(64).String()}, bvSort(64))
+				r := c.app(bvSort(64), name, x, y)
+				zero, one := bvLitI(64, 0), bvLitI(64, 1)
+				fact := c.implies(c.and(c.app(sortBool, ge, x, zero), c.app(sortBool, ge, y, one)), c.and(c.app(sortBool, ge, r, zero), c.app(sortBool, le, r, x)))
+				c.axiom(r.S, name, fact)
+				c.symOfConst[r.S] = name
+				e.trusted["64-bit division by a symbolic divisor is abstracted to an uninterpreted function with the assumed fact 0 <= a/b <= a for a >= 0, b >= 1"] = true
+				return scalar(rt, r), reach
+			}
 			return bin(o)
 		case token.SHL, token.SHR:
 			return scalar(rt, e.shift(op, x, b, signed, reach, pos)), reach
